@@ -155,6 +155,8 @@ def decode(code):
     case = {"states": states, "mode_name": ["Mode X", "auto1", "m"][name_c]}
     if name_c == 1 and len(states) >= 2:
         case["split"] = 1 + first_i % (len(states) - 1)
+    if name_c == 2:
+        case["other_mode"] = True
     case["vars"] = [{"n": f"v{i}", "default": VAR_DEFAULTS[d], "prefix": p} for i, (d, p) in enumerate(vars_c)]
     timed = [s["n"] for s in states if s["timed"]]
 
@@ -227,6 +229,22 @@ class C15(Lab):
             raise exc_violation("C15", e, f"defining/instantiating the mode; case: {case}")
         mode._trace = []
         mode._scripts = {s["n"]: [list(a) for a in s.get("script", [])] for s in case["states"]}
+        other = None
+        if case.get("other_mode"):
+            # a robot usually has several autonomous modes; another mode with the same state and variable names but
+            # other durations / defaults is constructed after this one and enabled now and then: no influence allowed
+            oc = dict(case, mode_name="Other " + case["mode_name"], split=0)
+            oc["states"] = [dict(sd, dur=sd.get("dur", 0) + 64, script=[]) for sd in case["states"]]
+            oc["vars"] = [dict(v, default={float: 9.5, bool: (not v["default"]) if isinstance(v["default"], bool) else True, str: "other", int: 99}[type(v["default"])]) for v in case.get("vars", [])
+                          if v["prefix"]]
+            ns2 = dict(ns)
+            try:
+                exec(compile(class_source(oc), "<generated other mode>", "exec"), ns2)
+                other = ns2["Mode"]()
+            except Exception as e:
+                raise exc_violation("C15", e, f"defining/instantiating a second mode; case: {case}")
+            other._trace = []
+            other._scripts = {}
         model = SpecSA(case)
         table = simenv.nt().getTable("SmartDashboard")
         mn = case["mode_name"]
@@ -257,6 +275,13 @@ class C15(Lab):
         for pi, per in enumerate(case["periods"]):
             for ed in per["edits"]:
                 apply(ed)
+            if other is not None and pi % 2 == 0:
+                try:
+                    other.on_enable()
+                    other.on_iteration(0.0)
+                    other.on_disable()
+                except Exception as e:
+                    raise exc_violation("C15", e, f"running the second mode; case: {case}")
             try:
                 mode.on_enable()
             except Exception as e:
